@@ -17,7 +17,7 @@ namespace CaddyModel.C03
 open CaddyModel.Lifecycle
 
 /-- probe app 0 with one custom log writing to probe writer 1 -/
-def wLog : Cfg := ⟨0, [⟨0, 1⟩], [⟨0, 1, 0, [], []⟩]⟩
+def wLog : Cfg := ⟨0, [⟨0, 1⟩], [⟨0, 1, 0, [], []⟩], ⟨0, 0⟩⟩
 def wEnv : Env := ⟨true, false, 0, [], [0], [0]⟩
 
 /-- Full clause: "cleanup callbacks registered for the configuration's lifetime are invoked when
@@ -44,9 +44,9 @@ theorem writers_function_of_current_full_fails :
   ⟨[.load wLog wEnv, .load wLog wEnv], by decide⟩
 
 /-- HTTP app with a reverse proxy to upstream 4 -/
-def wRpA : Cfg := ⟨0, [], [⟨3, 1, 0, [], [⟨0, 4⟩]⟩]⟩
+def wRpA : Cfg := ⟨0, [], [⟨3, 1, 0, [], [⟨0, 4⟩]⟩], ⟨0, 0⟩⟩
 /-- the same with a reverse proxy whose Provision fails early -/
-def wRpB : Cfg := ⟨0, [], [⟨3, 2, 0, [], [⟨3, 4⟩]⟩]⟩
+def wRpB : Cfg := ⟨0, [], [⟨3, 2, 0, [], [⟨3, 4⟩]⟩], ⟨0, 0⟩⟩
 def wEnvH : Env := ⟨true, false, 0, [], [3], []⟩
 
 /-- what LoadModuleByID's immediate Cleanup did to the hosts pool BEFORE fix d6561d4 when a reverse
